@@ -89,6 +89,89 @@ def run(mid, checks, tier):
     return 0
 
 
+def prun(ids, jobs, tier, all_checks=False):
+    """the same as `run` for many seeded changes at once: worker k owns the scratch worktree /tmp/pm_<k> of /repo's HEAD
+    and runs the checks against it (VERIF_REPO), so /repo itself is never touched; worktrees and private build
+    directories are removed at the end"""
+    import threading
+    import queue
+    import shutil
+    q = queue.Queue()
+    for mid in ids:
+        q.put(mid)
+    lock = threading.Lock()
+
+    def worker(k):
+        wt = "/tmp/pm_%d" % k
+        sh(["git", "worktree", "remove", "--force", wt], cwd=REPO)
+        rc, out = sh(["git", "worktree", "add", "-q", "--detach", wt, "HEAD"], cwd=REPO)
+        if rc != 0:
+            print(out)
+            return
+        import hashlib
+        alt = os.path.join(ROOT, ".build", "alt-" + hashlib.sha1(wt.encode()).hexdigest()[:10])
+        shutil.rmtree(alt, ignore_errors=True)
+        os.makedirs(alt)
+        # warm start: third-party crates and the compiled Coq tree of the clean run
+        for tdir in ("target-b", "target-n"):
+            if os.path.isdir(os.path.join(ROOT, ".build", tdir)):
+                sh(["cp", "-a", os.path.join(ROOT, ".build", tdir), os.path.join(alt, tdir)])
+        sh(["cp", "-a", os.path.join(ROOT, "coq"), os.path.join(alt, "coq")])
+        try:
+            while True:
+                try:
+                    mid = q.get_nowait()
+                except queue.Empty:
+                    break
+                d = os.path.join(SEEDED, mid)
+                meta = json.load(open(os.path.join(d, "meta.json")))
+                checks = claimed() if all_checks else [meta["property"]]
+                rc, out = sh(["git", "apply", os.path.join(d, "patch.diff")], cwd=wt)
+                if rc != 0:
+                    print("patch does not apply:", mid, out)
+                    continue
+                res = {}
+                try:
+                    for c in checks:
+                        t0 = time.time()
+                        rc, out = sh(["./check", c, "--tier", tier], cwd=ROOT, timeout=7200, env={"VERIF_REPO": wt})
+                        viol = [l for l in out.split("\n") if l.startswith("VIOLATION")]
+                        replay = None
+                        detail = ""
+                        if viol:
+                            m = re.search(r"replay=(\S+)", viol[0])
+                            if m and os.path.exists(m.group(1)):
+                                rp = json.load(open(m.group(1)))
+                                replay = os.path.join(d, "replay-%s.json" % c)
+                                json.dump(rp, open(replay, "w"), indent=1)
+                                if "case" in rp:
+                                    detail = rp["case"].get("harness_line", "")[:300]
+                                elif "broken" in rp:
+                                    detail = "; ".join(b["kind"] for b in rp["broken"])
+                        res[c] = dict(exit=rc, violation=viol[0] if viol else None, no_failing_input=bool(viol and "no-failing-input-found" in viol[0]),
+                                      replay=replay, detail=detail, seconds=round(time.time() - t0, 1))
+                        with lock:
+                            print("  %s on %s: exit %d %s (%.0fs)" % (c, mid, rc, (viol[0][:120] if viol else ""), time.time() - t0), flush=True)
+                finally:
+                    sh("git checkout -- . && git clean -fdq -- src tests", cwd=wt)
+                path = os.path.join(d, "result.json")
+                old = json.load(open(path)) if os.path.exists(path) else {}
+                old.update(res)
+                json.dump(old, open(path, "w"), indent=1)
+                with lock:
+                    print("%s (breaks %s): caught by %s" % (mid, meta.get("property"), ", ".join(c for c, r in old.items() if r["exit"] != 0) or "NOTHING"), flush=True)
+        finally:
+            sh(["git", "worktree", "remove", "--force", wt], cwd=REPO)
+            shutil.rmtree(alt, ignore_errors=True)
+
+    ts = [threading.Thread(target=worker, args=(k,)) for k in range(jobs)]
+    for t in ts:
+        t.start()
+    for t in ts:
+        t.join()
+    return 0
+
+
 def confirm(mid):
     """demo fails with the patch and passes without it; the existing suite passes with it (in a scratch worktree)"""
     d = os.path.join(SEEDED, mid)
@@ -158,6 +241,13 @@ def main():
         return 0
     if a[0] == "confirm":
         return confirm(a[1])
+    if a[0] == "prun":
+        # tools/mutants.py prun <jobs> [--all] id id ...   (ids may be prefixes such as C01)
+        jobs = int(a[1])
+        allc = "--all" in a
+        want = [x for x in a[2:] if not x.startswith("--")]
+        ids = [m for m in sorted(os.listdir(SEEDED)) if os.path.exists(os.path.join(SEEDED, m, "meta.json")) and (not want or any(m.startswith(w) for w in want))]
+        return prun(ids, jobs, "quick", allc)
     if a[0] == "run":
         mid = a[1]
         tier = "quick"
